@@ -1,6 +1,7 @@
 package props
 
 import (
+	"bufio"
 	"bytes"
 	"crypto"
 	"fmt"
@@ -181,6 +182,49 @@ var clearsigImpl = map[string]core.Adapter{
 func init() {
 	// law: the keyring is consulted as it is at the time of the call.  args: a document signed
 	// by key A, the same text signed by key B, keyring {A}, keyring {B}
+	// law: what a verified reader hands out is the signed text, whatever the caller does afterwards
+	// with the *bufio.Reader it passed in (reuse it for the next file, read on from it).
+	// args: signed document, an unsigned other document, keyring
+	clearsigImpl["law-clearsig-reader"] = func(a []string) string {
+		signed, other := core.MustUnHex(a[0]), core.MustUnHex(a[1])
+		kr := readKeyring(a[2])
+		want, err := func() (string, error) {
+			r, err := control.NewParagraphReader(strings.NewReader(signed), &kr)
+			if err != nil {
+				return "", err
+			}
+			ps, err := r.All()
+			return dumpParas(ps), err
+		}()
+		if err != nil {
+			return "ok"
+		}
+		for _, size := range []int{4096, 16, 8192} {
+			for _, misuse := range []string{"reset", "read", "discard"} {
+				br := bufio.NewReaderSize(strings.NewReader(signed+"\n"+other), size)
+				r, err := control.NewParagraphReader(br, &kr)
+				if err != nil {
+					return fmt.Sprintf("FAIL refused through a %d-byte bufio.Reader: %v", size, err)
+				}
+				switch misuse {
+				case "reset":
+					br.Reset(strings.NewReader(other))
+				case "read":
+					io.ReadAll(br)
+				case "discard":
+					br.Discard(br.Buffered())
+				}
+				ps, err := r.All()
+				if err != nil {
+					continue
+				}
+				if got := dumpParas(ps); got != want && r.Signer() != nil {
+					return fmt.Sprintf("FAIL after the caller's bufio.Reader (%d bytes) was %s, the verified reader hands out %s under a valid signer; the signed text is %s", size, misuse, clipStr(got, 200), clipStr(want, 200))
+				}
+			}
+		}
+		return "ok"
+	}
 	clearsigImpl["law-clearsig-krmut"] = func(a []string) string {
 		docA, docB := core.MustUnHex(a[0]), core.MustUnHex(a[1])
 		kr := readKeyring(a[2])
@@ -280,6 +324,9 @@ func streamClearsig(g *core.G) {
 		origPs, _ := readAllParas(text)
 		orig := dumpParas(origPs)
 		sid := hexID(signer)
+		if r.Chance(1, 3) {
+			g.Emit("law-clearsig-reader", core.Hex(signed), core.Hex(r.Pick([]string{"Package: unsigned\nVersion: 6.6.6\n", text + "Extra: unsigned\n", "X: y\n\nZ: w\n"})), core.Hex(serializeKeyring([]*openpgp.Entity{signer})))
+		}
 		krIn, krBoth, krOut, krEmpty := []*openpgp.Entity{signer}, []*openpgp.Entity{ks[0], ks[1]}, []*openpgp.Entity{ks[2]}, []*openpgp.Entity{}
 		law := func(input string, kr []*openpgp.Entity, hasKr bool, signerID, expect string) {
 			mode := "nil"
@@ -380,6 +427,7 @@ func streamClearsig(g *core.G) {
 			if o == signer {
 				o = ks[1]
 			}
+			g.Emit("law-clearsig-reader", core.Hex(signed), core.Hex("Package: unsigned\nVersion: 6.6.6\n\nPackage: second\n"), core.Hex(serializeKeyring([]*openpgp.Entity{signer})))
 			g.Emit("law-clearsig-krmut", core.Hex(signed), core.Hex(clearSign(o, text)), core.Hex(serializeKeyring([]*openpgp.Entity{signer})), core.Hex(serializeKeyring([]*openpgp.Entity{o})))
 		}
 		// signature removed / replaced by another document's signature
@@ -397,7 +445,7 @@ func init() {
 		ID: "C11", PropsModule: "GoDebian.Props.C11",
 		Facts: []string{"fingerprint:control.NewParagraphReader", "fingerprint:control.ParagraphReader.decodeClearsig", "fingerprint:control.ParagraphReader.Signer", "fingerprint:control.Decoder.Signer", "fingerprint:control.NewDecoder"},
 		Streams: []core.Stream{{Name: "clearsig", Gen: streamClearsig,
-			Domain: "generated deb822 documents (1-2 paragraphs, continuation and dash-escaped lines) clearsigned with one of two fresh RSA keys x keyrings (signer only, both, other key, empty, nil) and the unsigned text; per signed text substitution, deletion, insertion and truncation at sampled (quick: ~25 positions) or all (thorough) offsets; foreign text spliced before the armor (with and without blank line), inside the signed text, before the signature and after the armor; a second complete signed document (by the same key, the other keyring key or an outsider; other text or a replay) appended behind the first; several signature packets in one armor (over other texts, over the empty text, by keyring keys and outsiders); a keyring edited in place between reads; signature removed; signature of another document; model (with the real Decode / CheckDetachedSignature answers) vs NewParagraphReader+All+Signer and the Decoder entry point; law-clearsig: valid accepted faithfully with the signer's id, outsider/empty keyring rejected, damaged variants either rejected or read as exactly the signed paragraphs, changed text characters rejected, no signer for unsigned input"}},
+			Domain: "law-clearsig-reader: the caller's *bufio.Reader (16 / 4096 / 8192 bytes) reset to another file, read to its end or emptied after NewParagraphReader returned - what the verified reader hands out under a signer is the signed text; generated deb822 documents (1-2 paragraphs, continuation and dash-escaped lines) clearsigned with one of two fresh RSA keys x keyrings (signer only, both, other key, empty, nil) and the unsigned text; per signed text substitution, deletion, insertion and truncation at sampled (quick: ~25 positions) or all (thorough) offsets; foreign text spliced before the armor (with and without blank line), inside the signed text, before the signature and after the armor; a second complete signed document (by the same key, the other keyring key or an outsider; other text or a replay) appended behind the first; several signature packets in one armor (over other texts, over the empty text, by keyring keys and outsiders); a keyring edited in place between reads; signature removed; signature of another document; model (with the real Decode / CheckDetachedSignature answers) vs NewParagraphReader+All+Signer and the Decoder entry point; law-clearsig: valid accepted faithfully with the signer's id, outsider/empty keyring rejected, damaged variants either rejected or read as exactly the signed paragraphs, changed text characters rejected, no signer for unsigned input"}},
 		Impl: clearsigImpl, TrustedBase: tb,
 		Readable: func(op string, a []string) string {
 			return fmt.Sprintf("%s(%q, keyring=%s) %v", op, clipStr(core.MustUnHex(a[0]), 300), a[1], a[len(a)-1])
